@@ -31,7 +31,7 @@ func (w *nullWriter) WriteHeader(int)             {}
 func VH23a_dialer() {
 	lab := "C15/ws-dialer"
 	vws.Reset()
-	protos := []string{"pair", "req", "sub", "bus"}
+	protos := []string{"pair", "req", "sub", "bus", "xpair"}
 	proto := protos[verif.Choice("proto", len(protos))]
 	sock := vp.New(proto)
 	if proto == "sub" {
@@ -55,8 +55,35 @@ func VH23a_dialer() {
 	want := sock.Info().PeerName + ".sp.nanomsg.org"
 	verif.Assert(len(st.Offered) == 1 && st.Offered[0] == want, lab+"/subprotocol-offered")
 	verif.Assert(st.LimitSet && st.ReadLimit == int64(maxrx), "C16/ws-dialer/read-limit-not-applied")
-	// outbound
-	if proto != "sub" {
+	// outbound, raw socket: the protocol header is the application's, of any length incl. 0, and so is the body
+	if proto == "xpair" {
+		hdr := verif.Bytes("hdr", verif.Choice("hlen", 3))
+		body := verif.Bytes("rawbody", verif.Choice("blen", 3))
+		m := mangos.NewMessage(0)
+		m.Header = append(m.Header, hdr...)
+		m.Body = append(m.Body, body...)
+		verif.Assert(sock.SendMsg(m) == nil, lab+"/send-raw")
+		verif.Quiesce()
+		verif.Assert(len(st.Frames) == 1, lab+"/not-exactly-one-frame-per-message")
+		if len(st.Frames) == 1 {
+			f := st.Frames[0]
+			verif.Assert(f.Type == websocket.BinaryMessage, lab+"/frame-not-binary")
+			want := append(append([]byte{}, hdr...), body...)
+			verif.Assert(verif.BytesEq(f.Data, want), "C15/ws/frame-is-not-header-then-body")
+		}
+		verif.Reach("sent-raw")
+	} else if proto == "req" {
+		// cooked REQ: 4-byte request id (top bit set) then the body, also when the body is empty
+		body := verif.Bytes("body", verif.Choice("blen", 3))
+		verif.Assert(sock.Send(body) == nil, lab+"/send")
+		verif.Quiesce()
+		verif.Assert(len(st.Frames) == 1, lab+"/not-exactly-one-frame-per-message")
+		if len(st.Frames) == 1 {
+			f := st.Frames[0]
+			verif.Assert(len(f.Data) == 4+len(body) && f.Data[0]&0x80 != 0 && verif.BytesEq(f.Data[4:], body), "C15/ws/frame-is-not-header-then-body")
+		}
+		verif.Reach("sent")
+	} else if proto != "sub" {
 		body := verif.Bytes("body", verif.Choice("blen", 3))
 		verif.Assert(sock.Send(body) == nil, lab+"/send")
 		verif.Quiesce()
@@ -74,7 +101,7 @@ func VH23a_dialer() {
 		verif.Reach("sent")
 	}
 	// inbound
-	if proto == "pair" || proto == "sub" || proto == "bus" {
+	if proto == "pair" || proto == "sub" || proto == "bus" || proto == "xpair" {
 		in := verif.Bytes("in", 1+verif.Choice("ilen", 2))
 		wire := in
 		st.PeerSend(websocket.BinaryMessage, wire)
